@@ -403,6 +403,10 @@ func intrinsicTable0() map[string]func(ex *Exec, f *Frame, call *ssa.Call, args 
 			a, b := args[0].(SliceV), args[1].(SliceV)
 			return And(Eq(a.Len, b.Len), Or(Eq(a.Len, Int(0)), And(Eq(a.Arr, b.Arr), Eq(a.Off, b.Off)))), reach
 		},
+		"verifDisjoint": func(ex *Exec, f *Frame, call *ssa.Call, args []Value, reach *Term) (Value, *Term) {
+			a, b := args[0].(SliceV), args[1].(SliceV)
+			return Or(Eq(a.Arr, Int(0)), Eq(b.Arr, Int(0)), Ne(a.Arr, b.Arr)), reach
+		},
 		"verifFresh": func(ex *Exec, f *Frame, call *ssa.Call, args []Value, reach *Term) (Value, *Term) {
 			// true iff the slice is empty or its array was allocated during this execution
 			s := args[0].(SliceV)
